@@ -320,11 +320,12 @@ class DataFormat(object):
 
         if name == KEY_ENCODING:
             try:
-                codecs.lookup(value)
-            except LookupError:
+                # NOTE: Encode some text to ensure this is a text encoding, unlike for example "hex".
+                "".encode(value)
+            except (LookupError, ValueError):
                 raise errors.InterfaceError(
                     "value for data format property %s is %s but must be a valid encoding"
-                    % (_compat.text_repr(KEY_ENCODING), _compat.text_repr(self.encoding)),
+                    % (_compat.text_repr(KEY_ENCODING), _compat.text_repr(value)),
                     location,
                 )
             self.encoding = value
